@@ -363,6 +363,36 @@ fn hostile_name(r: &mut Rng, under: &Labels) -> Labels {
     n
 }
 
+/// A second wire-valid encoding that says "the same thing" as `rec` and that an implementation
+/// may or may not regard as equal: an NSEC type bitmap padded with trailing zero octets, a TXT
+/// record with one more empty string. Whatever equality decides, hashing has to agree with it.
+fn encoding_twin(rec: &Rec) -> Option<Rec> {
+    let mut tw = rec.clone();
+    match rec.rtype {
+        t::NSEC => {
+            // fields: next name, then (window, length, bitmap)*
+            let n = tw.fields.len();
+            if n < 4 {
+                return None;
+            }
+            let (F::U8(len), F::Bytes(bm)) = (tw.fields[n - 2].clone(), tw.fields[n - 1].clone()) else { return None };
+            if len as usize != bm.len() || bm.len() + 2 > 32 {
+                return None;
+            }
+            let mut bm2 = bm;
+            bm2.extend_from_slice(&[0, 0]);
+            tw.fields[n - 2] = F::U8(bm2.len() as u8);
+            tw.fields[n - 1] = F::Bytes(bm2);
+            Some(tw)
+        }
+        t::TXT => {
+            tw.fields.push(F::Str(Vec::new()));
+            Some(tw)
+        }
+        _ => None,
+    }
+}
+
 /// An EDNS(0) OPT pseudo-record as real mDNS peers append it (RFC 6891; Apple's owner option):
 /// root owner, CLASS = UDP payload size, TTL = extended RCODE / version / flags. The hostile
 /// variants put it under the watched service, repeat it, or let an option length overrun.
@@ -763,6 +793,11 @@ pub fn generate(seed: u64, focus: &str, profile: Profile) -> Scenario {
                         x.ttl = ttl;
                         x.class = 1;
                         x.cache_flush = flush;
+                        if let Some(tw) = encoding_twin(&x) {
+                            if r.chance(1, 2) {
+                                recs.push(tw);
+                            }
+                        }
                         recs.push(x);
                     }
                 }
